@@ -20,7 +20,8 @@ X = ('x',)
 FUNCS = ['sin', 'cos', 'tan', 'cot', 'sec', 'csc', 'sinh', 'cosh', 'tanh', 'coth', 'sech', 'csch',
          'exp', 'exp2', 'expm1', 'log', 'log2', 'log10', 'log1p', 'sqrt',
          'arcsin', 'arccos', 'arctan', 'arcsinh', 'arccosh', 'arctanh']
-BASES = [0.3, 0.7, -0.4, 1.3, 2.5, -1.2, 4.0, -20.0, 25.0, -1e4, -0.96875, -0.99999904632568359375]
+BASES = [0.3, 0.7, -0.4, 1.3, 2.5, -1.2, 4.0, -20.0, 25.0, -1e4, -0.96875, -0.99999904632568359375,
+         0.0, -0.0]      # exactly zero (both signs): sign-based branch selections must not vanish there
 SIGNS = list(itertools.product((1, -1), repeat=3))
 SIZES = [1e-8, 1e-5, 1e-3, 1e-1]
 HS = [1e-8, 1e-12, 1.7e-15]
@@ -214,7 +215,7 @@ def work(chunk, tier='quick'):
                     acc.maxi('worst_ratio_in_allowance_units', worst)
                     continue
                 shape = 'z2=0' if pert[1] == 0 and pert[2] == 0 else ('h-h-0' if pert[2] == 0 else 'general')
-                acc.violation('C12:%s:%s:%s' % (pk, status, 'negative-base' if x < 0 else 'positive-base'),
+                acc.violation('C12:%s:%s:%s' % (pk, status, 'negative-base' if x < 0 else ('zero-base' if x == 0 else 'positive-base')),
                               dict(prog=prog, x=x, pert=list(pert), f=show),
                               '%s at x=%r, perturbation %r (%s): %s' % (show, x, pert, shape, detail),
                               rank=jets.depth(prog) * 1000 + int(-math.log10(max(abs(v) for v in pert) + 1e-300)))
